@@ -299,3 +299,7 @@ def run(ctx):
     rule_create_from(ctx)
     rule_check_schema(ctx)
     rule_best_match(ctx)
+    # R4.6: "repeating any call yields identical results" needs the resolver's scope restored on every exit (is_valid and
+    # validate() abandon the error iterator at its first element)
+    from . import scope
+    scope.rule_pairing(ctx, "R4.6")
